@@ -220,6 +220,115 @@ theorem toShapefile_eq (coll : List Shape) (incl : Option (List String)) :
     | error e => rfl
     | ok fs => simp [Except.map, pure, Except.pure]
 
+/-! ## the reader side: `from_shapefile` (row loop, `conv_map` dispatch) -/
+
+/-- `_get_dt` only returns what a shape constructor accepts as `dt` -/
+theorem shpGetDt_range (fs fe : String) (rec : Dict PVal) (v : V) (h : SrcIo.shpGetDt fs fe rec = .ok v) :
+    ∃ d, dtOfArg v = .ok d := by
+  unfold SrcIo.shpGetDt at h
+  simp only [] at h
+  rcases field_spec rec fs with ⟨h1, _⟩ | ⟨a, h1, _⟩ | ⟨d, e, h1, h0, ht, hf, _⟩ <;>
+    rcases field_spec rec fe with ⟨g1, _⟩ | ⟨b, g1, _⟩ | ⟨d', e', g1, g0, gt, gf, _⟩ <;>
+    simp only [h1, g1] at h <;>
+    simp_all [V.truthy, V.fromiso, V.mkTI, dtOfArg, bind, Except.bind, pure, Except.pure] <;>
+    (try split_ifs at h) <;> (try simp_all [dtOfArg]) <;> (try (subst h; simp [dtOfArg]))
+
+theorem filter_eq_dictDel (d : Dict PVal) (fs fe : String) :
+    (d.filter fun kv => !(kv.1 == fs || kv.1 == fe)) = dictDel (dictDel d fs) fe := by
+  unfold dictDel
+  rw [List.filter_filter]
+  congr 1
+  funext kv
+  by_cases h1 : kv.1 = fs <;> by_cases h2 : kv.1 = fe <;> simp [h1, h2, bne, Bool.and_comm]
+
+/-- one row: `conv_map` dispatch, `_get_dt`, the property filter, `from_pyshp` -/
+theorem rloop2_step (fs fe : String) (cm : List (String × Kind)) (rd : ShpFileR) (hcm : ∀ t, dictGet cm t = convMap t)
+    (shapes : List Shape) (row : ShpShapeR × Dict PVal) :
+    SrcIo.fromShapefile.loop2 fs fe cm rd shapes row = (readRow fs fe row).map (shapes ++ [·]) := by
+  unfold SrcIo.fromShapefile.loop2 readRow classGet
+  simp only [hcm, filter_eq_dictDel]
+  cases hk : convMap row.1.gtype with
+  | none => rfl
+  | some k =>
+    simp only [Option.isNone_some, Bool.false_eq_true, if_false, ok_bind]
+    rw [← shpGetDt_eq]
+    cases hd : SrcIo.shpGetDt fs fe row.2 with
+    | error e => rfl
+    | ok v =>
+      obtain ⟨d, hdv⟩ := shpGetDt_range fs fe row.2 v hd
+      simp only [ok_bind, fromPyshpV, hdv, bind, Except.bind, pure, Except.pure]
+      cases fromPyshp k row.1 <;> rfl
+
+theorem rloop2_eq (fs fe : String) (cm : List (String × Kind)) (rd : ShpFileR) (hcm : ∀ t, dictGet cm t = convMap t) :
+    ∀ (rows : List (ShpShapeR × Dict PVal)) (shapes : List Shape),
+      List.foldlM (SrcIo.fromShapefile.loop2 fs fe cm rd) shapes rows =
+        (mapExcept (readRow fs fe) rows).map (shapes ++ ·) := by
+  intro rows
+  induction rows with
+  | nil => intro shapes; simp [List.foldlM, mapExcept, Except.map, pure, Except.pure]
+  | cons row rest ih =>
+    intro shapes
+    rw [List.foldlM_cons, rloop2_step fs fe cm rd hcm, mapExcept]
+    cases readRow fs fe row with
+    | error e => rfl
+    | ok sh =>
+      simp only [Except.map, ok_bind, bind, Except.bind]
+      rw [ih]
+      cases mapExcept (readRow fs fe) rest <;> simp [Except.map, pure, Except.pure]
+
+/-- one archive member: skipped unless it is a `.shp` layer with rows -/
+theorem rloop1_step (arch : List Member) (fs fe : String) (cm : List (String × Kind)) (hcm : ∀ t, dictGet cm t = convMap t)
+    (shapes : List Shape) (m : Member) :
+    SrcIo.fromShapefile.loop1 arch fs fe () cm shapes m =
+      if m.isShp then (mapExcept (readRow fs fe) m.reader.rows).map (shapes ++ ·) else .ok shapes := by
+  unfold SrcIo.fromShapefile.loop1
+  by_cases h : m.isShp = true
+  · simp only [h, Bool.false_eq_true, if_false, Bool.not_true, if_true]
+    rw [rloop2_eq fs fe cm m.reader hcm]
+    cases hr : m.reader.rows with
+    | nil => simp [mapExcept, Except.map, pure, Except.pure]
+    | cons r rs =>
+      simp only [List.map_cons, List.isEmpty_cons, Bool.not_false, Bool.not_true, Bool.false_eq_true, if_false]
+      cases mapExcept (readRow fs fe) (r :: rs) <;> rfl
+  · simp [h, pure, Except.pure]
+
+theorem rloop1_eq (arch : List Member) (fs fe : String) (cm : List (String × Kind)) (hcm : ∀ t, dictGet cm t = convMap t) :
+    ∀ (ms : List Member) (shapes : List Shape),
+      List.foldlM (SrcIo.fromShapefile.loop1 arch fs fe () cm) shapes ms =
+        (mapExcept (fun f => mapExcept (readRow fs fe) f.rows) ((ms.filter (·.isShp)).map (·.reader))).map
+          (fun xs => shapes ++ xs.flatten) := by
+  intro ms
+  induction ms with
+  | nil => intro shapes; simp [List.foldlM, mapExcept, Except.map, pure, Except.pure]
+  | cons m rest ih =>
+    intro shapes
+    rw [List.foldlM_cons, rloop1_step arch fs fe cm hcm]
+    by_cases h : m.isShp = true
+    · simp only [h, if_true, List.filter_cons_of_pos, List.map_cons, mapExcept]
+      cases mapExcept (readRow fs fe) m.reader.rows with
+      | error e => rfl
+      | ok xs =>
+        simp only [Except.map, ok_bind, bind, Except.bind]
+        rw [ih]
+        cases mapExcept _ (List.map (·.reader) (List.filter (·.isShp) rest)) <;>
+          simp [Except.map, pure, Except.pure]
+    · simp only [h, Bool.false_eq_true, if_false, ok_bind]
+      rw [ih, List.filter_cons_of_neg (by simpa using h)]
+
+theorem convLit_eq (t : String) :
+    dictGet [("Point", Kind.point), ("LineString", Kind.line), ("Polygon", Kind.poly), ("MultiPoint", Kind.mpoint),
+      ("MultiLineString", Kind.mline), ("MultiPolygon", Kind.mpoly)] t = convMap t := by
+  unfold convMap
+  simp only [dictGet_cons, dictGet_nil, beq_iff_eq, eq_comm (b := t)]
+
+/-- **`CollectionBase.from_shapefile`, translated, reads what the model's `readShp` reads from the `.shp` members** -/
+theorem fromShapefile_eq (arch : List Member) (fs fe : String) :
+    SrcIo.fromShapefile arch fs fe () = readShp ((arch.filter (·.isShp)).map (·.reader)) fs fe := by
+  unfold SrcIo.fromShapefile readShp
+  simp only []
+  rw [rloop1_eq arch fs fe _ convLit_eq]
+  cases mapExcept _ _ <;> simp [Except.map, bind, Except.bind, pure, Except.pure]
+
 /-! ## the importers with the translated helpers in place, and the headline theorems restated for them
 
 `from_shapefile` / `from_geopandas` as `Model/Io.lean` has them, except that the time bounds of a row are what the
@@ -269,14 +378,26 @@ theorem srcFromGeopandas_eq (f : GpdFrameR) (fs fe : String) : srcFromGeopandas 
   rw [gpdGetDt_eq]
   cases convMap r.geomType <;> rfl
 
-/-- `shp_roundtrip_partial` for the translated writer (`to_shapefile`, whole) and the translated `_get_dt` of the reader -/
+/-- `shp_roundtrip_partial` for the translated writer (`to_shapefile`, whole) and the translated reader (`from_shapefile`,
+    whole, with its `_get_dt`): the zip archive holds, among other members, one `.shp` layer per written file, read back
+    through the channel `ch` -/
 theorem shp_roundtrip_partial_src (ch : ShpFileW → ShpFileR) (hch : ∀ f, ch f = idealShp f)
+    (arch : List ShpFileW → List Member)
+    (harch : ∀ files, ((arch files).filter (·.isShp)).map (·.reader) = files.map ch)
     (coll : List Shape) (hwf : ∀ s ∈ coll, ShapeWF s) (hu : UniformTypes coll) :
     ∃ g files back, groupByFamily coll = .ok g ∧ SrcIo.toShapefile coll none = .ok files ∧
-      srcReadShp (files.map ch) = .ok back ∧
+      SrcIo.fromShapefile (arch files) "datetime_s" "datetime_e" () = .ok back ∧
       List.Forall₂ BackRel (g.points ++ g.multipoints ++ g.lines ++ g.shapes) back := by
   obtain ⟨g, files, back, h1, h2, h3, h4⟩ := shp_roundtrip_partial ch hch coll hwf hu
-  exact ⟨g, files, back, h1, by rw [toShapefile_eq]; exact h2, by rw [srcReadShp_eq]; exact h3, h4⟩
+  exact ⟨g, files, back, h1, by rw [toShapefile_eq]; exact h2, by rw [fromShapefile_eq, harch]; exact h3, h4⟩
+
+/-- the archive hypothesis is satisfiable: the layers themselves, each followed by a non-`.shp` member -/
+example (ch : ShpFileW → ShpFileR) : ∀ files : List ShpFileW,
+    (((files.map fun f => [(⟨true, ch f⟩ : Member), ⟨false, ch f⟩]).flatten).filter (·.isShp)).map (·.reader) = files.map ch := by
+  intro files
+  induction files with
+  | nil => rfl
+  | cons f rest ih => simpa using ih
 
 theorem gpd_roundtrip_partial_src (ch : GpdFrameW → GpdFrameR) (hch : ∀ w, ch w = idealGpd w)
     (coll : List Shape) (hwf : ∀ s ∈ coll, GpdShapeWF s) :
